@@ -31,7 +31,7 @@ def run(rep, tier, seed, summary):
     vlib.grep_gate(rep)
     if ok:
         vlib.print_assumptions(rep, PID)
-    n_each = 15 if tier == "quick" else 150
+    n_each = 30 if tier == "quick" else 200
     res = impl(dict(seed=seed, n_each=n_each))
     cases = spec_params.cases(random.Random(seed), n_each)
     known = {k["id"]: k for k in vlib.load_known() if k.get("property") == PID and k.get("status") == "known"}
@@ -50,7 +50,9 @@ def run(rep, tier, seed, summary):
     rep.suite("valid parameter dictionaries (MODE SELECT 6/10, PR OUT basic / SPEC_I_PT / REGISTER AND MOVE with all TransportID kinds, "
               "EXTENDED COPY LID1/LID4 with 0..3 CSCD and segment descriptors) built by the real constructors and read back at the standard's positions",
               len(res), 0, samples=[dict(command=res[0]["kind"], dataout=res[0].get("dataout", [])[:32])],
-              distribution=dict(per_command=kinds, failing=nbad))
+              distribution=dict(per_command=kinds, failing=nbad,
+                                with_transport_id_lists=sum(1 for c in cases if c["kind"] == "prout_basic" and c["kw"].get("transport_ids")),
+                                xcopy_with_descriptors=sum(1 for c in cases if c["kind"].startswith("xcopy") and (c["kw"].get("segment_descriptor_list")))))
     # model vs code: the PR OUT lists are encode_dict over the regenerated tables; _pad4_len is the regenerated expression
     with vlib.Lock():
         vlib.coq_make(["Model/ParserInst.vo", "Model/CorrUtil.vo", "Gen/Builders.vo"])
